@@ -36,7 +36,7 @@ def legal(rng, mp=None, small=True, lo=1, hi=None):
     if rng.random() < 0.6:
         ns['t1'] = rng.choice(TIES)
     if rng.random() < 0.5:
-        ns['skew'] = rng.choice([1.0, 2.0, 5.0, 0.5, 10.0])
+        ns['skew'] = rng.choice([1.0, 2.0, 5.0, 0.5, 10.0, 1.125, 2.6180339887, 0.004, 99.999, 3.3333333333333335])
     if mp in ('sm', 'hr'):
         ns['twopl'] = True
     if mp == 'spa':
